@@ -31,7 +31,7 @@ def _names(node, prog, mod, fn_locals):
             self.generic_visit(n)
 
         def visit_Name(self, n):
-            if n.id in fn_locals:
+            if n.id in fn_locals and n.id != "cls":
                 out.add(n.id)
 
         def visit_Lambda(self, n):
@@ -41,20 +41,46 @@ def _names(node, prog, mod, fn_locals):
     return out
 
 
+class Defs(dict):
+    """name -> list of defining expressions; .unpacked = names bound by unpacking a non-literal sequence
+    (each such name is only a *part* of the right-hand side)"""
+
+    def __init__(self):
+        super().__init__()
+        self.unpacked = set()
+
+
 def _local_defs(fn: ast.FunctionDef):
     """name -> list of value expressions assigned to it (simple and tuple targets)."""
-    defs = {}
+    defs = Defs()
     for st in ast.walk(fn):
         if isinstance(st, ast.Assign):
             for t in st.targets:
                 if isinstance(t, ast.Name):
                     defs.setdefault(t.id, []).append(st.value)
                 elif isinstance(t, (ast.Tuple, ast.List)):
-                    for e in t.elts:
+                    literal = isinstance(st.value, (ast.Tuple, ast.List)) and len(st.value.elts) == len(t.elts)
+                    for pos, e in enumerate(t.elts):
                         if isinstance(e, ast.Name):
-                            defs.setdefault(e.id, []).append(st.value)
+                            defs.setdefault(e.id, []).append(st.value.elts[pos] if literal else st.value)
+                            if not literal:
+                                defs.unpacked.add(e.id)
                         elif isinstance(e, ast.Starred) and isinstance(e.value, ast.Name):
                             defs.setdefault(e.value.id, []).append(st.value)
+        elif isinstance(st, ast.AugAssign) and isinstance(st.target, ast.Name):
+            defs.setdefault(st.target.id, []).append(st.value)
+        elif isinstance(st, ast.AnnAssign) and isinstance(st.target, ast.Name) and st.value is not None:
+            defs.setdefault(st.target.id, []).append(st.value)
+        elif isinstance(st, (ast.For, ast.comprehension)):
+            for e in ast.walk(st.target):
+                if isinstance(e, ast.Name):
+                    defs.setdefault(e.id, []).append(st.iter)
+        elif isinstance(st, ast.Call) and isinstance(st.func, ast.Attribute) and isinstance(st.func.value, ast.Name) and st.func.attr in ("append", "extend", "add", "update", "insert", "setdefault"):
+            # a value built up in place: what is put into it defines it
+            for a in st.args:
+                defs.setdefault(st.func.value.id, []).append(a)
+        elif isinstance(st, ast.Assign) and len(st.targets) == 1 and isinstance(st.targets[0], ast.Subscript) and isinstance(st.targets[0].value, ast.Name):
+            defs.setdefault(st.targets[0].value.id, []).append(st.value)
     return defs
 
 
@@ -115,8 +141,8 @@ def find_memo_sites(fi: FuncInfo):
             # drop `v = C.get(K)` and `v = C[K]`
             vals = [d for d in vals if norm(d) not in {f"{cache}[{norm(key)}]"}]
         keys = [key]
-        if isinstance(key, ast.Name) and key.id in defs:
-            keys = defs[key.id]
+        if isinstance(key, ast.Name) and key.id in defs and key.id not in defs.unpacked:
+            keys = defs[key.id]  # a key that is one unpacked part of something is not that something
         out.append((cache, keys, vals, n))
     return out
 
@@ -150,7 +176,7 @@ def check_memo_keys(ctx, rep, rule, modules, min_sites=1, only_functions=None):
                         if nm == cache:
                             continue
                         # derived only from key names?  follow local definitions (depth 2)
-                        if _derived_from(nm, key_names, defs, prog, mod, locs, 2):
+                        if _derived_from(nm, key_names, defs, prog, mod, locs, 4):
                             continue
                         missing.add(nm)
                 # the algorithm object's own immutable configuration is not an input of the key
@@ -182,6 +208,55 @@ def check_memo_keys(ctx, rep, rule, modules, min_sites=1, only_functions=None):
 
 
 # rcache / result_cache only intern equal results (result -> result): sharing them is harmless
+POSITIVE = '''
+class Alg:
+    def good(self, o, a):
+        key = (o, a)
+        r = self._memo.get(key)
+        if r is None:
+            r = self.build(o, a)
+            self._memo[key] = r
+        return r
+
+    def bad(self, o, a):
+        r = self._memo.get(o)
+        if r is not None:
+            return r
+        r = self._memo[o] = self.build(o, a)
+        return r
+
+    def bad_built_in_place(self, element, op):
+        ends = self._ends.get(element)
+        if ends is None:
+            ends, offset = [], 0
+            for d in op.domains():
+                offset += d.size
+                ends.append(offset)
+            self._ends[element] = ends
+        return ends
+'''
+
+
+def memo_rule(ctx, rep, rule, modules, min_sites=0):
+    """MEMO-KEY over the given modules + a positive control that must be flagged on every run"""
+    from .model import AnalysisError
+    from .report import Report
+
+    prog = ctx.prog
+    name = "verif_memokey_positive"
+    if name not in prog.modules:
+        prog.add_virtual_module(name, POSITIVE)
+    probe = Report("probe")
+    check_memo_keys(ctx, probe, "probe", [name], min_sites=0)
+    flagged = {f.scope.split(".")[-1] for f in probe.findings}
+    if flagged != {"bad", "bad_built_in_place"}:
+        raise AnalysisError(f"memo-key positive control: flagged {sorted(flagged)}, expected ['bad', 'bad_built_in_place']")
+    n = check_memo_keys(ctx, rep, rule, modules, min_sites=min_sites)
+    nf = sum(len(prog.module(m).functions) + sum(len(c.all_defs) for c in prog.module(m).classes.values()) for m in modules)
+    rep.ok(rule, prog.module(modules[0]).relpath if hasattr(prog.module(modules[0]), "relpath") else modules[0], f"memo-key rule: {nf} functions of {modules} scanned, {n} memo sites; positive control flagged")
+    return n
+
+
 _CACHE_KW = {"vcache", "visited_cache"}
 
 
